@@ -22,6 +22,7 @@ HeapValues == <<
   O(<<>>), O(<< <<"a", JStr("x")>> >>), O(<< <<"a", JInt(1)>> >>),
   O(<< <<"a", JStr("x")>>, <<"b", JInt(2)>> >>), O(<< <<"a", JStr("x")>>, <<"z", JStr("y")>> >>),
   O(<< <<"z", JInt(1)>> >>), O(<< <<"a", JStr("x")>>, <<"class", JInt(3)>> >>), JInt(5),
+  O(<< <<"a", JStr("x")>>, <<"level", JInt(2)>> >>),
   O(<< <<"a", JStr("xy")>>, <<"b", JStr("q")>> >>), O(<< <<"a", JStr("xy")>> >>),
   JArr(<<JInt(1)>>), JArr(<<JStr("x"), JStr("y")>>), JArr(<<JInt(1), JStr("x")>>), JArr(<<JInt(1), JInt(2)>>) >>
 
@@ -107,6 +108,11 @@ PutProperty == \E x \in Targets, p \in PropChoices :
 DelProperty == \E x \in Targets : \E i \in 1..Len(PropsOf(heap[x])) :
   Step(Op("delprop", x, <<PropsOf(heap[x])[i].attr, 0>>),
        [heap EXCEPT ![x] = RemoveProp(@, PropsOf(heap[x])[i].attr)], NoOutcome)
+(* properties.update({...}): the mapping is filled without going through __setitem__ (the   *)
+(* property is bound to its name only when the element is next used); same configuration    *)
+UpdateChoices == { Prop("z", "z", TRUE, StringE), Prop("level_", "level", FALSE, Mk("Integer", [default |-> JInt(1)])) }
+UpdateProperty == \E x \in Targets, p \in UpdateChoices :
+  Step(Op("updateprop", x, p), [heap EXCEPT ![x] = PutProp(@, p)], NoOutcome)
 MoveProperty == \E x \in Targets : \E i \in 1..Len(PropsOf(heap[x])) :
   LET a == PropsOf(heap[x])[i].attr IN
   /\ ~HasProp(heap[x], a \o "_moved")
@@ -120,7 +126,7 @@ Validate == \E x \in Targets : \E i \in 1..Len(HeapValues) :
        [heap EXCEPT ![x] = ValidateWrites(@, HeapValues[i])],
        ValidateOutcome(heap[x], HeapValues[i]))
 
-Next == SetKeyword \/ ClearKeyword \/ PutProperty \/ DelProperty \/ MoveProperty \/ ToggleReq \/ Validate
+Next == SetKeyword \/ ClearKeyword \/ PutProperty \/ UpdateProperty \/ DelProperty \/ MoveProperty \/ ToggleReq \/ Validate
 Spec == Init /\ [][Next]_vars
 
 (* design-level claims on the model *)
